@@ -880,6 +880,13 @@ def r_local(E):
             am = next((k.value for k in c_.keywords if k.arg == "ambiguous"), None)
             if ne is None and am is None:
                 continue      # (no reading of its own: such a call raises on a skipped / repeated hour, or its zone has none)
+            # (the flags may be prepared in a local: `all_hours_are_dst = np.full(n, True)`)
+            host_ = c_
+            while host_ is not None and not isinstance(host_, ast.FunctionDef):
+                host_ = getattr(host_, "_parent", None)
+            if host_ is not None:
+                ne = _fx(ne, host_) if ne is not None else None
+                am = _fx(am, host_) if am is not None else None
             readings.append((rel_, c_, norm(ne) if ne is not None else "<default: raise>", _amb(am)))
     res.instances += len(readings)
     # (a single shared localisation is consistent with itself; that both readers localise at all is judged above)
